@@ -128,6 +128,7 @@ package scheduler
 //@ func (pc *PartitionContext) UpdateAllocation(alloc *objects.Allocation) (requestCreated bool, allocCreated bool, err error)
 //@   props C12 C13 C03 C04
 //@   sweep
+//@   mode exempt=allocnonneg:alloc
 //@   mode nopanic=on
 //@   holds pc != nil && pc.stateMachine != nil
 //@   at[queueset] call objects.Application.GetQueue#1 after: assume ret != nil
